@@ -104,6 +104,30 @@ SPECS = {
         rule="as C03 (random projects, safe + adversarial streams, both modes); the adversarial stream adds reserved-word / raw-identifier command names, kebab-case containers, renames with `-`, spaces and quotes; every real file is tokenised and parsed; non-trivial = project with >=1 command; distinct = hash of (IR, configuration)",
         exhaustive={"quick": False, "thorough": False},
         partial=["hole well-formedness proved (string literals for all Unicode, function/type/listener identifier characters); skeleton validity rests on the recogniser, run per case"]),
+    "C10": dict(groups=["shapes", "project"],
+        only_oracles=["c10_param_shape", "c10_field_shape", "c10_iface_shape", "c10_shape_mod_known", "text_is_tsShape", "text_is_zodShape",
+                      "c10_names", "c10_keys", "c10_shapes", "c10_shapes_mod_known", "c10_enum_literals", "nopanic"],
+        # these oracles already undo the two known deviations (z.set, Result union): only the shared-parser findings may explain a failure
+        oracle_known={k: ["K05_commaUnsafe", "K05a_precUnsafe", "unsupported", "unsupportedType", "undocumentedItemShape", "duplicateTypeNames",
+                          "K18a_mappedAndDefined", "K01c_nonIdentifierKey", "K01e_quoteInLiteral", "K02e_nameClash", "emptyEnum", "namesNotOk"]
+                      for k in ["c10_shape_mod_known", "c10_shapes_mod_known", "c10_names", "c10_keys", "c10_enum_literals", "c10_iface_shape",
+                                "text_is_tsShape", "text_is_zodShape"]},
+        excluded_classes=["unsupported", "unsupportedType", "undocumentedItemShape", "duplicateTypeNames", "duplicateCommandNames", "K18a_mappedAndDefined",
+                          "K01c_nonIdentifierKey", "K01e_quoteInLiteral", "K02e_nameClash", "emptyEnum", "namesNotOk"],
+        theorems="Typegen.Theorems.C10",
+        trusted_base=[LEAN_TB, HARNESS_TB,
+                      "spec: Z.Shape is the common vocabulary of 'structure'; T.parseTsTy + Z.shapeOfTs read a TypeScript type, Z.parseZod + Z.shapeOfZ read a schema expression (refinements `.min/.max/.email/.url` and `.coerce` are not structure); both readers are run on every real text (oracles text_is_tsShape / text_is_zodShape tie the texts to the shapes the theorems speak about)",
+                      "acceptance semantics Acc (JSON values against shapes; no JSON value is a JavaScript Set) is the definition of 'rejected for structural reasons'",
+                      "project-level tie as for C03, plus: the same analysis is generated in the other output mode too and both types.ts texts equal the model's"],
+        assumptions=["`Option` = omittable: `T | null`, `?:`, `.optional()` and `.nullable()` are one shape, as the statement says (whether null or undefined is sent is not distinguished)",
+                     "record keys are JSON strings: the key shape is compared, not enforced by Acc",
+                     "types hit by the shared-parser findings of C05 (first-comma splitting, Option directly under an array) produce malformed text in both modes; they are listed under C10 as the same findings (K10c, K10d)"],
+        rule="function level: all type expressions of depth <=2 (quick) / <=3 (thorough) as in C05, all 17 primitive names, random types to depth 6, random types over mapped names with two mapping tables; each rendered at the parameter and the field site in both modes by the real code (5 texts) and read into shapes; "
+             "project level: as C03, every project generated in both modes, declarations compared item by item (names, keys, shape per key, enum literals); non-trivial = at least one constructor / one command; distinct = hash of the input",
+        exhaustive={"quick": True, "thorough": True},
+        exhaustive_scope={"quick": "depth<=2 over 7 leaf classes (binary constructors capped at 12 sub-terms)", "thorough": "depth<=3 (binary constructors capped at 40 sub-terms)"},
+        partial=["C10_shapes_agree_partial / C10_partial: full statement minus HashSet/BTreeSet (K10a: z.set) and Result (K10b: union with an error object); C10_never_rejected_partial covers Result, excludes sets",
+                 "the schema side (Z.zodShape) is tied to render_type by the per-case oracle, not by a printer theorem; the declaration side is tied to the C05 denotation by C10_declaration_is_denotation"]),
     "C03": dict(groups=["project"], only_oracles=["c03_wrappers"], excluded_classes=['unsupportedType', 'undefinedNamedType', 'undocumentedItemShape', 'duplicateTypeNames', 'duplicateCommandNames', 'K18a_mappedAndDefined', 'K01a_reservedOrIllegalFnName'], theorems="Typegen.Theorems.C03",
         trusted_base=[LEAN_TB, HARNESS_TB,
                       "project-level tie: the harness renders a project IR to Rust source files, runs the real CommandAnalyzer + generators on them and hands the IR (annotated with the token text proc_macro2 prints for every attribute and the generic tree of every type) to the Lean model; compared: the whole analysis (commands, parameters, channels, events, discovered types, dependency sets) and the text of all four generated files modulo whitespace and the header comment",
